@@ -23,7 +23,7 @@ PID = 'C23'
 
 META = {
     'technique': 'lockset dataflow (pairing, order, guarded-by with interprocedural entry locksets) + dominance/post-dominance (wait=>pop, push=>post) + control dependence + ring wrap-idiom recognition on EbSystemResourceManager.c',
-    'text': 'Decides the structural protocol clauses of the System Resource Manager on every path of its 30-odd functions: lock pairing, queue->fifo lock order, guarded-by of ring buffers / fifo links / wrapper counters, push=>post, wait=>pop, quit-guarded pop, FIFO direction and ring index arithmetic shape, release condition. These are necessary conditions of safe hand-out and wake-up under every interleaving; liveness of the whole protocol and lost-wake-up freedom of the non-blocking get are not decided.',
+    'text': 'Decides the structural protocol clauses of the System Resource Manager on every path of its 30-odd functions: lock pairing, queue->fifo lock order, guarded-by of ring buffers / fifo links / wrapper counters, push=>post, wait=>pop, quit-guarded pop, FIFO direction and ring index arithmetic shape, release condition. These are necessary conditions of safe hand-out and wake-up under every interleaving; liveness of the whole protocol and lost-wake-up freedom of the non-blocking get are not decided. Also decided: the release condition is falsified on the push path inside the same critical section, so a stale second release cannot put a pooled wrapper into the empty queue twice.',
     'note': 'pthread semantics; callers classified single-threaded (init/dctor) by call-graph reachability are excluded from the entry-lockset intersection',
     'ref': 'DESIGN.md section 5 C23',
 }
